@@ -15,6 +15,16 @@ def main():
     mod = importlib.import_module(f"checks.{a.prop.lower()}")
     if a.replay:
         sys.exit(mod.replay(a.replay) if hasattr(mod, "replay") else generic_replay(a.prop, a.replay))
+    # watchdog: a check never hangs - past the limit it stops as UNDECIDED (exit 2), which is not a verdict on the property
+    import signal
+    limit = int(os.environ.get("VERIF_WATCHDOG_S", "780" if a.tier == "quick" else "14000"))
+
+    def _late(*_):
+        sys.stdout.write(f"UNDECIDED property={a.prop} reason=watchdog: the check did not finish within {limit}s\n")
+        sys.stdout.flush()
+        os._exit(2)
+    signal.signal(signal.SIGALRM, _late)
+    signal.alarm(limit)
     sys.exit(mod.run(a.tier, seed))
 
 
